@@ -2,6 +2,7 @@ package main
 
 import (
 	"fmt"
+	"github.com/ethereum/go-ethereum/common"
 	"os"
 	"runtime/pprof"
 	"time"
@@ -43,4 +44,24 @@ func init() {
 			fh.Close()
 		}()
 	}
+}
+
+func (s *sut) debugLookup(h common.Hash, st *snapshotState) {
+	if os.Getenv("C38_DEBUG") == "" {
+		return
+	}
+	n := rawdb.ReadTxLookupEntry(s.db, h)
+	fmt.Printf("DEBUG lookup %x: db entry=%v", h[:4], n)
+	if n != nil {
+		ch := rawdb.ReadCanonicalHash(s.db, *n)
+		fmt.Printf(" canonical[%d]=%x headBlock=%d headHeader=%d", *n, ch[:4], st.headNum, len(st.canon)-1)
+		if *n < uint64(len(st.canon)) {
+			fmt.Printf(" model canon=%s", st.canon[*n])
+		}
+	}
+	l, _ := s.bc.GetCanonicalTransaction(h)
+	if l != nil {
+		fmt.Printf(" api: #%d %x idx %d", l.BlockIndex, l.BlockHash[:4], l.Index)
+	}
+	fmt.Println()
 }
